@@ -214,6 +214,32 @@ theorem sorted_list_refines_spec :
    fun sq _ h r hp => ⟨by have := refines_peek h; simp only [SortedQ.peek] at this; simp only [SortedQ.pop] at hp; rw [hp] at this; exact this,
      refines_pop h hp⟩⟩
 
+/-! ## facts regenerated from `processor.go` on every run (T1) -/
+
+/-- The source is the repaired variant: the empty-queue exit releases the running token before
+`p.lock.Unlock()`, and a `Close` that lost the CAS waits for the winner. So `lts fixedCfg` is the
+model of the code that exists. -/
+theorem source_is_fixed : sourceIsFixed = true := by decide
+
+/-- The lock discipline that the atomic actions of the model rest on, the shape of `process()`,
+`execute()` and the loop, and the channel capacities, as re-extracted from the source. -/
+theorem source_shape :
+    Kit.Generated.C06.enqueueBodyAtomic = true ∧ Kit.Generated.C06.dequeueBodyAtomic = true ∧
+    Kit.Generated.C06.stoppedCheckOutsideLock = true ∧
+    Kit.Generated.C06.processShape = "tokenElseResetIfNext" ∧
+    Kit.Generated.C06.loopPeekUnderLock = true ∧ Kit.Generated.C06.deferredRelease = true ∧
+    Kit.Generated.C06.pollBeforeClock = true ∧ Kit.Generated.C06.executeShape = true ∧
+    Kit.Generated.C06.tokenCap = 1 ∧ Kit.Generated.C06.resetCap = 1 ∧ Kit.Generated.C06.stopCap = 0 := by
+  decide
+
+/-- The margin is positive (needed by `not_early`: a fired timer is never "early"). -/
+theorem margin_positive : 0 < halfMs := by decide
+
+/-- Every point at which the harness parks a goroutine (and for which the driver maps a program
+counter) is a `verifhook.Point` call site of the current source. -/
+theorem park_points_are_hook_sites :
+    ∀ p ∈ parkPoints, ("queue." ++ p) ∈ Kit.Generated.C06.hookSites := by decide
+
 /-- The list `taus` that the driver's quiescence check evaluates is complete: every enabled
 internal label occurs in it (for both variants of the code). -/
 theorem internal_steps_listed {cfg : Cfg} {s s' : State κ ν} {l : Label κ ν}
@@ -277,7 +303,7 @@ def closeLoserState : State Nat Unit :=
 
 theorem close_loser_run : runFrom ⟨false⟩ init closeLoserSchedule = some closeLoserState := by
   simp [runFrom, closeLoserSchedule, closeLoserState, step, init, process, enqGuard, lookup, remove,
-    Queue.insert, IsHead, IsMin, pop, halfMs]
+    Queue.insert, IsHead, IsMin, pop, halfMs, Kit.Generated.C06.runNowMarginNs]
 
 /-- **close_loser_witness**: with the `Close` of the unchanged tree (`fixed = false`) a callback
 starts after a call to `Close` has returned — `close_quiescent_trace` is false there. -/
@@ -302,7 +328,7 @@ def demoState : State Nat Unit :=
 
 theorem demo_run : runFrom fixedCfg init demoSchedule = some demoState := by
   simp [runFrom, demoSchedule, demoState, step, init, process, enqGuard, deqGuard, lookup, remove,
-    Queue.insert, IsHead, IsMin, pop, halfMs]
+    Queue.insert, IsHead, IsMin, pop, halfMs, Kit.Generated.C06.runNowMarginNs]
 
 theorem demo_reach : Reach (lts fixedCfg) demoState := reach_of_run Reach.init demo_run
 
